@@ -53,6 +53,134 @@ def variants(ctx, d):
     return out
 
 
+def _net_names(op, par, args, dests):
+    return (op, par, tuple(args), tuple(dests))
+
+
+def _real_nets(block):
+    out = []
+    for n in block.logic:
+        par = n.op_param
+        if n.op in 'm@':
+            par = par[1].name
+        elif n.op == 's':
+            par = tuple(int(x) for x in par)
+        out.append(_net_names(n.op, par, [a.name for a in n.args], [d.name for d in n.dests]))
+    return sorted(out, key=repr)
+
+
+def _derive_cert(kind, ser, after_block):
+    """(indices of removed nets, [(removed dest id, replacement id)]) as the alias pass `kind` is specified, read off the
+    block before the call (wire / slice removal) or off before and after (one CSE round)"""
+    nets = ser.nets
+    wid = ser.wid
+    if kind in ('wire', 'slice'):
+        def is_alias(n):
+            if kind == 'wire':
+                return n.op == 'w'
+            return (n.op == 's' and len(n.args[0]) == len(n.dests[0])
+                    and tuple(n.op_param) == tuple(range(n.op_param[0], n.op_param[-1] + 1)))
+        src = {n.dests[0]: n.args[0] for n in nets if is_alias(n)}
+
+        def find(w):
+            while w in src:
+                w = src[w]
+            return w
+        removed = [i for i, n in enumerate(nets) if is_alias(n) and not isinstance(n.dests[0], Output)]
+        sigma = [[wid[nets[i].dests[0]], wid[find(nets[i].dests[0])]] for i in removed]
+        return removed, sigma
+    after_dests = {d.name for n in after_block.logic for d in n.dests}
+    removed, sigma = [], []
+    for i, n in enumerate(nets):
+        if n.op in 'r@' or not n.dests or n.dests[0].name in after_dests:
+            continue
+        # a kept net computing the same thing
+        for k in nets:
+            if k is n or k.op != n.op or not k.dests or k.dests[0].name not in after_dests or isinstance(k.dests[0], (Output, Register)):
+                continue
+            kp = k.op_param[1].id if k.op == 'm' else k.op_param
+            np_ = n.op_param[1].id if n.op == 'm' else n.op_param
+            if kp != np_:
+                continue
+
+            def key(w):
+                return ('const', w.bitwidth, w.val) if isinstance(w, Const) else id(w)
+            ka, na = [key(a) for a in k.args], [key(a) for a in n.args]
+            if ka == na or ka == na[::-1]:
+                removed.append(i)
+                sigma.append([wid[n.dests[0]], wid[k.dests[0]]])
+                break
+    return removed, sigma
+
+
+class AliasWatch(object):
+    """while active, every call of passes._remove_wire_nets / _remove_slice_nets / _replace_subexps is compared with the
+    Lean model of alias elimination: the certificate derived for the call must be justified (certOk, schedsOkB) and
+    Alias.applyCert of the block before the call must equal the block after it, net by net"""
+    MAXNETS = 60
+
+    def __init__(self, ctx):
+        self.ctx = ctx
+        self.saved = {}
+
+    def _wrap(self, name, kind):
+        orig = getattr(passes, name)
+        ctx = self.ctx
+
+        def wrapped(block, *a, **kw):
+            small = len(block.logic) <= self.MAXNETS and not any(isinstance(w, Const) and False for w in ())
+            ser = Ser(block) if small else None
+            res = orig(block, *a, **kw)
+            if not small:
+                ctx.count('alias-tie-skipped-large-block', kind)
+                return res
+            try:
+                removed, sigma = _derive_cert(kind, ser, block)
+                resp = ctx.driver.ask({'cmd': 'alias', 'block': ser.data, 'removed': removed, 'sigma': sigma})
+            except Exception as e:  # noqa
+                ctx.alias_err = getattr(ctx, 'alias_err', 0) + 1
+                ctx.alias_first = getattr(ctx, 'alias_first', None) or ('%s: %s: %s' % (kind, type(e).__name__, str(e)[:200]))
+                return res
+            if not resp.get('ok'):
+                raise RuntimeError('alias model: %s' % resp)
+            ctx.alias_n = getattr(ctx, 'alias_n', 0) + 1
+            ctx.count('alias-tie', kind)
+            ctx.count('alias-tie-removed-nets', min(len(removed), 5))
+            if not resp['scheds_ok']:
+                ctx.alias_notok = getattr(ctx, 'alias_notok', 0) + 1
+                ctx.alias_first = getattr(ctx, 'alias_first', None) or ('%s: certificate not accepted (cert_ok=%s) removed=%r sigma=%r' % (
+                    kind, resp['cert_ok'], removed, sigma))
+            memname = {mid: m.name for mid, m in ser.mems.items()}
+            want = []
+            for n in resp['nets']:
+                par = n.get('p')
+                if n['op'] in 'm@':
+                    par = memname.get(par, par)
+                elif n['op'] == 's':
+                    par = tuple(par)
+                want.append(_net_names(n['op'], par, [ser.wires[x].name for x in n['a']], [ser.wires[x].name for x in n['d']]))
+            got = _real_nets(block)
+            if sorted(want, key=repr) != got:
+                ctx.alias_bad = getattr(ctx, 'alias_bad', 0) + 1
+                only_m = [x for x in want if x not in got][:2]
+                only_r = [x for x in got if x not in want][:2]
+                ctx.alias_first = getattr(ctx, 'alias_first', None) or ('%s: only in model %r, only in pass output %r' % (kind, only_m, only_r))
+            return res
+        self.saved[name] = orig
+        setattr(passes, name, wrapped)
+
+    def __enter__(self):
+        self._wrap('_remove_wire_nets', 'wire')
+        self._wrap('_remove_slice_nets', 'slice')
+        self._wrap('_replace_subexps', 'cse')
+        return self
+
+    def __exit__(self, *exc):
+        for name, orig in self.saved.items():
+            setattr(passes, name, orig)
+        return False
+
+
 def check_pass(ctx, label, src, pname, steps, steps_alt, memmap_by_id, reps, replay0):
     replay = dict(replay0, variant=label, passname=pname, repeats=reps, block=Ser(src).data)
     ins0, outs0 = passlib.io_names(src)
@@ -63,7 +191,8 @@ def check_pass(ctx, label, src, pname, steps, steps_alt, memmap_by_id, reps, rep
                 # the non-updating form, called while an unrelated block is the working block
                 work = passlib.run_in(work, lambda: pyrtl.optimize(update_working_block=False, block=work), foreign=True)
             else:
-                passlib.run_in(work, lambda: PASSES[pname](work), foreign=(pname != 'optimize' and ctx.rng.random() < 0.3))
+                with AliasWatch(ctx):
+                    passlib.run_in(work, lambda: PASSES[pname](work), foreign=(pname != 'optimize' and ctx.rng.random() < 0.3))
     except Exception as e:  # noqa
         ctx.violation('%s-raises:%s' % (pname, simrun.err_class(e)),
                       '%s on a %s block raised %s: %s' % (pname, label, type(e).__name__, str(e)[:200]), replay)
@@ -159,6 +288,24 @@ def main(ctx):
         d = gen.rand_design(rng, profile='small' if k % 3 else 'med', nops=rng.randint(3, 12), max_total=40,
                             wide_mem=False, raw=False, twins=True,
                             ops=gen.OPS_ALL + ['constop', 'constop', 'const', 'constreg'])
+        if k % 2 == 0 and d.inputs:
+            # several foldable nets whose results are the same number at different widths (and twice at the same width)
+            with pyrtl.set_working_block(d.block, no_sanity_check=True):
+                v = rng.choice([0, 1, 2, 3, 5])
+                ws = rng.sample([3, 4, 5, 7, 9], 3)
+                ws.append(ws[0])
+                for j, w_ in enumerate(ws):
+                    how = rng.randrange(3)
+                    if how == 0:
+                        f = ~pyrtl.Const(((1 << w_) - 1) ^ v, w_)
+                    elif how == 1:
+                        f = pyrtl.Const(v | (1 << (w_ - 1)), w_) & pyrtl.Const((1 << (w_ - 1)) - 1, w_)
+                    else:
+                        f = pyrtl.Const(v, w_) | pyrtl.Const(0, w_)
+                    o = pyrtl.Output(w_ + len(d.inputs[j % len(d.inputs)]), 'ofold%d' % j)
+                    o <<= pyrtl.concat(d.inputs[j % len(d.inputs)], f)
+                    d.outputs.append(o)
+            ctx.count('equal-folds-different-widths', 'added')
         steps = gen.rand_stimulus(rng, d, rng.choice([3, 5]))
         steps_alt = gen.rand_stimulus(rng, d, len(steps))
         _, memmap, _ = gen.rand_init(rng, d, with_default=False)
@@ -181,6 +328,12 @@ def main(ctx):
         if len(ctx.violations) >= 6:
             break
     folded_outputs(ctx)
+    an, ab, ak, ae = (getattr(ctx, x, 0) for x in ('alias_n', 'alias_bad', 'alias_notok', 'alias_err'))
+    ctx.oblige('tie:_remove_wire_nets / _remove_slice_nets / every CSE round = Lean Alias.applyCert of a justified certificate '
+               '(net by net; certOk and schedsOkB evaluated per call)', ab == 0 and ak == 0 and ae == 0 and an > 0,
+               '%d/%d calls differ, %d certificates not accepted, %d derivation errors%s' % (
+                   ab, an, ak, ae, ('; first: ' + ctx.alias_first) if getattr(ctx, 'alias_first', None) else ''))
+    ctx.extra['alias_tie'] = {'calls': an, 'differ': ab, 'not_accepted': ak, 'errors': ae}
     ctx.oblige('oracle:Spec(pass(b))=Spec(b) on Outputs; io kept; result well-formed', not ctx.violations,
                '%d/%d (variant, pass) applications agree' % (agree, total))
     return conclude(ctx, rule='random designs enriched with constants (constant operands, constant-fed registers, constants '
